@@ -4,11 +4,11 @@ go 1.23
 
 require (
 	github.com/vapourismo/knx-go v0.0.0
+	golang.org/x/net v0.23.0
 	pgregory.net/rapid v1.3.0
 )
 
 require (
-	golang.org/x/net v0.23.0 // indirect
 	golang.org/x/sys v0.18.0 // indirect
 	golang.org/x/text v0.14.0 // indirect
 )
